@@ -282,7 +282,7 @@ def gen_case(rng, idx):
 
     nsp = rng.choice([1, 2, 2, 3, 3, 4])
     chosen = rng.sample(SPECIES, nsp)
-    no_stopping = rng.random() < 0.12
+    no_stopping = (idx % 8 == 3) or rng.random() < 0.04     # the no-stopping class is always present
     heavy = rng.random() < 0.15
     varying = False
     sp = []
